@@ -157,6 +157,13 @@ func checkW1(c *Ctx, r *Report) {
 	r.Floor("W1-no-inplace-sort", sorts, 1)
 }
 
+// inPlaceCompactors: library functions that shift the elements of their
+// argument's backing array (and zero the tail).
+var inPlaceCompactors = map[string]bool{
+	"slices.Compact": true, "slices.CompactFunc": true, "slices.Delete": true, "slices.DeleteFunc": true,
+	"slices.Insert": true, "slices.Replace": true,
+}
+
 var inPlaceMutators = map[string]bool{
 	"sort.Sort": true, "sort.Stable": true, "sort.Slice": true, "sort.SliceStable": true, "sort.Strings": true,
 	"slices.Sort": true, "slices.SortFunc": true, "slices.SortStableFunc": true, "slices.Reverse": true,
@@ -789,10 +796,10 @@ func ownershipRules(c *Ctx, r *Report) {
 }
 
 func checkC11(c *Ctx, r *Report) {
-	r.Rules = []string{"W1 deep-fresh plan (points-to)", "W2 prepare boundary / post-prepare-only writes", "W3 Info-own writes idempotent when reachable from ConventionalFileName", "W4 no shared map update, Validate/Get read-only, merge aliasing", "W5 no file-system mutation outside the CLI", "G1 globals written only under the lock", "G2 atomics", "G3 no goroutine", "G4 output buffers are fresh and do not escape", "W1-no-inplace-sort caller-owned lists are not reordered in place", "W3-shared-slice no element store / append-on-reslice into configuration lists (template helpers included)", "G1-init-only no package-level write reachable from an operation", "G1-once a once-function touches package-level state only", "G4-pool an object handed back to a pool is dead", "fixture"}
+	r.Rules = []string{"W1 deep-fresh plan (points-to)", "W2 prepare boundary / post-prepare-only writes", "W3 Info-own writes idempotent when reachable from ConventionalFileName", "W4 no shared map update, Validate/Get read-only, merge aliasing", "W5 no file-system mutation outside the CLI", "G1 globals written only under the lock", "G2 atomics", "G3 no goroutine", "G4 output buffers are fresh and do not escape", "W1-no-inplace-sort caller-owned lists are not reordered in place", "W3-shared-slice no element store / append-on-reslice into configuration lists (template helpers included)", "G1-init-only no package-level write reachable from an operation", "G1-once a once-function touches package-level state only", "G4-pool an object handed back to a pool is dead", "G1-receiver packager methods store nothing into the registered packager value", "W3-shared-slice also for library functions that rearrange a list in place", "fixture"}
 	r.Explanation = "Ownership/effect analysis over go/ssa. The channels through which one operation on a parsed configuration could influence a later one are enumerated — memory shared between the Info values Config.Get hands out (slice backing arrays and pointees; maps are re-made), package-level variables, the file system, and reuse of one Info for file name then package — and each is closed structurally: (W1) a field-sensitive inclusion-based points-to analysis of package files proves every *Content of the returned plan and the *ContentFileInfo it holds are allocated during the call and that no store in the planner goes through a caller-owned object; (W2) nfpm.PrepareForPackager replaces info.Contents by that plan and every write to a Content/ContentFileInfo in a packager is only reachable through call sites dominated by the prepare call, never from ConventionalFileName/Validate/Get; (W3) writes to the Info's own fields reachable from ConventionalFileName are override copies, translations through an idempotent table, or default filling; (W4) no update of a map or slice element shared with the configuration, Validate/Get do not write, and no overridable field is a pointer mergo would merge through; (W5) no file-system mutation outside the CLI; (G1-G3) globals only under the lock, atomics consistent, no goroutines. This decides absence of the influence channels; byte identity of the outputs then follows only with C07's assumptions."
 	r.Explanation += " (G4) every buffer under an archive or compressor writer is a fresh local or reset before use, and the bytes of a pooled buffer do not escape. (W1-no-inplace-sort) sort.Sort and its relatives never get a caller-owned list. (W3-shared-slice) parameters of template FuncMap functions count as configuration-owned lists."
-	r.Explanation += " (G1-init-only) no function reachable from an operation entry point (parsing, Config.Get/Validate, nfpm.Get, preparing, every packager method) writes a package-level variable, locked or not: nfpm.Get reads the registry without the lock. (G1-once) the function handed to sync.Once.Do stores only into package-level variables or its own locals. (G4-pool) a value handed to sync.Pool.Put is neither returned nor stored by that function, nor used after a non-deferred Put."
+	r.Explanation += " (G1-init-only) no function reachable from an operation entry point (parsing, Config.Get/Validate, nfpm.Get, preparing, every packager method) writes a package-level variable, locked or not: nfpm.Get reads the registry without the lock. (G1-once) the function handed to sync.Once.Do stores only into package-level variables or its own locals. (G4-pool) a value handed to sync.Pool.Put is neither returned nor stored by that function, nor used after a non-deferred Put. (G1-receiver) no method of a registered packager type stores through its receiver. W3-shared-slice also flags slices.Compact/Delete/Insert/Replace/Sort... on configuration-owned lists."
 	r.Assumptions = []string{
 		"mergo v1.0.1 semantics: maps are re-made in the destination, slice headers and pointers are copied (sharing their targets), nested pointers are dereferenced and merged in place",
 		"slices produced by the YAML decoder have cap == len, so appending to Info.Contents never writes into the parsed configuration's backing array",
@@ -802,10 +809,10 @@ func checkC11(c *Ctx, r *Report) {
 }
 
 func checkC12(c *Ctx, r *Report) {
-	r.Rules = []string{"W1-W4 no write to memory shared between concurrently packaged Infos", "G1 globals written only under the lock", "G2 atomics", "G3 no goroutine", "G4 output buffers are fresh and do not escape", "W1-no-inplace-sort caller-owned lists are not reordered in place", "W3-shared-slice no element store / append-on-reslice into configuration lists (template helpers included)", "G1-init-only no package-level write reachable from an operation", "G1-once a once-function touches package-level state only", "G4-pool an object handed back to a pool is dead", "fixture"}
+	r.Rules = []string{"W1-W4 no write to memory shared between concurrently packaged Infos", "G1 globals written only under the lock", "G2 atomics", "G3 no goroutine", "G4 output buffers are fresh and do not escape", "W1-no-inplace-sort caller-owned lists are not reordered in place", "W3-shared-slice no element store / append-on-reslice into configuration lists (template helpers included)", "G1-init-only no package-level write reachable from an operation", "G1-once a once-function touches package-level state only", "G4-pool an object handed back to a pool is dead", "G1-receiver packager methods store nothing into the registered packager value", "W3-shared-slice also for library functions that rearrange a list in place", "fixture"}
 	r.Explanation = "A data race needs two goroutines, one location and at least one write. The locations two concurrent Package calls (each on the Info obtained for its format) can both reach are the part of the configuration graph that Config.Get shares between Infos, package-level variables, and library internals. The check decides that module code writes none of the first two: the ownership analysis of C11 (points-to for the prepared plan, post-prepare-only content writes, Info-own writes, no shared map/element update) shows no store into memory reachable from two Infos; every package-level variable is written only under the registry lock (unlocked reads of the registry race only with registration, which the property's quantifier excludes) and appended to only when append must copy; fields accessed atomically are accessed only atomically; module code starts no goroutine. Interleavings are not explored: the argument is absence of shared writes."
 	r.Explanation += " (G4) every buffer under an archive or compressor writer is a fresh local or reset before use, and the bytes of a pooled buffer do not escape. (W1-no-inplace-sort) sort.Sort and its relatives never get a caller-owned list. (W3-shared-slice) parameters of template FuncMap functions count as configuration-owned lists."
-	r.Explanation += " (G1-init-only) no function reachable from an operation entry point (parsing, Config.Get/Validate, nfpm.Get, preparing, every packager method) writes a package-level variable, locked or not: nfpm.Get reads the registry without the lock. (G1-once) the function handed to sync.Once.Do stores only into package-level variables or its own locals. (G4-pool) a value handed to sync.Pool.Put is neither returned nor stored by that function, nor used after a non-deferred Put."
+	r.Explanation += " (G1-init-only) no function reachable from an operation entry point (parsing, Config.Get/Validate, nfpm.Get, preparing, every packager method) writes a package-level variable, locked or not: nfpm.Get reads the registry without the lock. (G1-once) the function handed to sync.Once.Do stores only into package-level variables or its own locals. (G4-pool) a value handed to sync.Pool.Put is neither returned nor stored by that function, nor used after a non-deferred Put. (G1-receiver) no method of a registered packager type stores through its receiver. W3-shared-slice also flags slices.Compact/Delete/Insert/Replace/Sort... on configuration-owned lists."
 	r.Assumptions = []string{
 		"mergo v1.0.1 semantics (see C11)",
 		"pgzip, zstd and go-crypto are internally synchronised (library property)",
@@ -1021,7 +1028,37 @@ func checkSharedSlicesIn(c *Ctx, r *Report, reach map[*ssa.Function]bool) int {
 					fmt.Sprintf("the slice written may be %v: Config.Get copies slice headers only, so this rewrites the parsed configuration's own list (origins: %s)", bad, joinSorted(orig)))
 			case *ssa.Call:
 				b, ok := x.Call.Value.(*ssa.Builtin)
-				if !ok || b.Name() != "append" {
+				if !ok {
+					// a library function that rearranges the elements of the
+					// slice it is given in place
+					if o := calleeObj(x); o != nil && (inPlaceMutators[qualifiedName(o)] || inPlaceCompactors[qualifiedName(o)]) && len(x.Call.Args) > 0 {
+						arg := stripIface(x.Call.Args[0])
+						if ct, isCT := arg.(*ssa.ChangeType); isCT {
+							arg = ct.X
+						}
+						if _, isSlice := arg.Type().Underlying().(*types.Slice); !isSlice {
+							return
+						}
+						orig := map[string]bool{}
+						sliceOrigins(c, pa, arg, false, map[ssa.Value]bool{}, orig)
+						var bad []string
+						for o := range orig {
+							if owned(o) {
+								bad = append(bad, o)
+							}
+						}
+						if len(bad) == 0 {
+							return
+						}
+						n++
+						perFn++
+						sort.Strings(bad)
+						r.Fail("W3-shared-slice", fmt.Sprintf("%s#%d in %s", qualifiedName(o), perFn, c.funcKey(fn)), c.instrPos(x),
+							fmt.Sprintf("the list rearranged in place may be %v: Config.Get copies slice headers only, so this rewrites the parsed configuration's own list for every later operation", bad))
+					}
+					return
+				}
+				if b.Name() != "append" {
 					return
 				}
 				orig := map[string]bool{}
@@ -1301,6 +1338,43 @@ func checkSyncState(c *Ctx, r *Report) {
 	r.Pass("G1-init-only", fmt.Sprintf("%d functions reachable from %d operation entry points", len(scope), len(roots)), "-", "none writes a package-level variable")
 	if len(roots) < 12 {
 		r.Fail("instance-floor", "G1-init-only roots", "-", fmt.Sprintf("only %d operation entry points found", len(roots)))
+	}
+
+	// (G1-receiver) the registered packagers are process-wide singletons; a
+	// method that stores into its receiver keeps per-build state where every
+	// concurrent and later build sees it
+	nRecv := 0
+	for _, pk := range c.Packagers {
+		if pk.Package == nil || pk.Package.Signature.Recv() == nil {
+			continue
+		}
+		rt := pk.Package.Signature.Recv().Type()
+		for _, fn := range c.ModFuncs {
+			if fn.Signature.Recv() == nil || !types.Identical(derefType(fn.Signature.Recv().Type()), derefType(rt)) || len(fn.Params) == 0 {
+				continue
+			}
+			nRecv++
+			recv := fn.Params[0]
+			bad := ""
+			var at ssa.Instruction
+			forEachInstr(fn, func(in ssa.Instruction) {
+				if st, ok := in.(*ssa.Store); ok {
+					if _, root := addrPath(st.Addr); root == ssa.Value(recv) {
+						bad = shorten(valueExpr(c, st.Addr, 0), 50)
+						at = st
+					}
+				}
+			})
+			pos := c.pos(fn.Pos())
+			if at != nil {
+				pos = c.instrPos(at)
+			}
+			r.Check(bad == "", "G1-receiver", c.funcKey(fn)+" stores nothing into the packager value", pos,
+				"the method writes "+bad+" of its receiver, and the receiver is the registered, process-wide packager: what one build leaves there is read by concurrent and later builds")
+		}
+	}
+	if nRecv < 10 {
+		r.Fail("instance-floor", "G1-receiver", "-", fmt.Sprintf("only %d packager methods found", nRecv))
 	}
 
 	nOnce, nPool := 0, 0
